@@ -33,3 +33,29 @@ Example C04_instance : exists c, In c schemas /\ decodable c = true /\
   construct_ok (c_params c) [Some (VInt 7); Some (VInt 0); Some (VInt 0)] = true.
 Proof. exists (nth 1 schemas (nth 0 schemas {| c_name := ""; c_header := 0; c_blocking := false; c_registered := false; c_params := [] |})).
   split; [right; left; reflexivity|]. split; reflexivity. Qed.
+
+(* ---- what "in range" is, spelled out for the leaf types (the theorems above use `valid` as a hypothesis; these pin the
+   acceptance set itself, from above AND from below; Tie B compares it with what the constructor accepts) *)
+Theorem C04_in_range_means :
+  (forall w n, valid (TInt w) (VInt n) = (n <? 256 ^ N.of_nat w)) /\
+  (forall k bs, valid (TFixBytes k) (VBytes bs) = (Nat.eqb (List.length bs) k && forallb byte_ok bs)) /\
+  (forall h cap bs, valid (TLVBytes h cap) (VBytes bs) =
+     ((N.of_nat (List.length bs) <? cap) && (N.of_nat (List.length bs) <? 256 ^ N.of_nat h) && forallb byte_ok bs)) /\
+  (forall h t vs, valid (TLVList h t) (VList vs) = ((N.of_nat (List.length vs) <? 256 ^ N.of_nat h) && forallb (valid t) vs)) /\
+  (forall k t vs, valid (TFixList k t) (VList vs) = (Nat.eqb (List.length vs) k && forallb (valid t) vs)) /\
+  (forall t vs, valid (TGreedy t) (VList vs) = forallb (valid t) vs).
+Proof. repeat split. Qed.
+Print Assumptions C04_in_range_means.
+
+(* the boundaries, evaluated: zigpy's LVBytes (1-byte prefix) takes 254 bytes and refuses 255; the library's ShortBytes
+   takes 255 and refuses 256; a simple descriptor's endpoint may be 255, not 256; a 16-bit list item may be 65535 *)
+Example C04_boundaries :
+  valid (TLVBytes 1 255) (VBytes (repeat 7 254)) = true /\ valid (TLVBytes 1 255) (VBytes (repeat 7 255)) = false /\
+  valid (TLVBytes 1 256) (VBytes (repeat 7 255)) = true /\ valid (TLVBytes 1 256) (VBytes (repeat 7 256)) = false /\
+  valid TSimpleDesc (VList [VInt 255; VInt 65535; VInt 65535; VInt 255; VList [VInt 65535]; VList []]) = true /\
+  valid TSimpleDesc (VList [VInt 256; VInt 0; VInt 0; VInt 0; VList []; VList []]) = false /\
+  valid TSimpleDesc (VList [VInt 0; VInt 0; VInt 0; VInt 0; VList [VInt 65536]; VList []]) = false /\
+  valid (TLVList 1 (TInt 2)) (VList (repeat (VInt 65535) 255)) = true /\
+  valid (TLVList 1 (TInt 2)) (VList (repeat (VInt 1) 256)) = false /\
+  valid (TFixBytes 8) (VBytes (repeat 1 7)) = false.
+Proof. vm_compute. repeat split. Qed.
